@@ -182,6 +182,48 @@ func (e *Engine) Load(patterns []string) error {
 			e.cs.FuncOrder = append(e.cs.FuncOrder, n)
 		}
 	}
+	// verif:filecalls: the callsite clause goes to every function defined in the file
+	for _, fc := range e.cs.FileCalls {
+		var names []string
+		for n, fn := range e.fnByName {
+			if !strings.HasPrefix(n, fc.PkgPath+".") || !fn.Pos().IsValid() || len(fn.Blocks) == 0 {
+				continue
+			}
+			pkg := fn.Pkg
+			for p := fn; pkg == nil && p != nil; p = p.Parent() {
+				pkg = p.Pkg
+			}
+			if pkg == nil || pkg.Pkg.Path() != fc.PkgPath {
+				continue
+			}
+			if filepath.Base(e.fset.Position(fn.Pos()).Filename) == fc.File {
+				names = append(names, n)
+			}
+		}
+		sort.Strings(names)
+		for _, n := range names {
+			c, has := e.cs.Funcs[n]
+			if !has {
+				c = &FuncContract{Key: strings.TrimPrefix(n, fc.PkgPath+"."), PkgPath: fc.PkgPath, Loops: map[int]*LoopSpec{}, Unit: fc.Unit, Props: fc.Props, Where: "verif:filecalls", NoSafety: true}
+				e.cs.Funcs[n] = c
+				e.cs.FuncOrder = append(e.cs.FuncOrder, n)
+			} else {
+				if c.Trusted || c.External {
+					continue
+				}
+				for _, p := range fc.Props {
+					found := false
+					for _, q := range c.Props {
+						found = found || q == p
+					}
+					if !found {
+						c.Props = append(append([]string{}, c.Props...), p)
+					}
+				}
+			}
+			c.CallSites = append(c.CallSites, fc.Spec)
+		}
+	}
 	assumed, _ := filepath.Glob(filepath.Join(e.verifDir, "contracts", "assumed", "*.spec"))
 	sort.Strings(assumed)
 	for _, f := range assumed {
